@@ -165,6 +165,7 @@ def report(prop, tier, seed, spec, results, kani_results, wall):
         explanation=spec.get('explanation', ''),
         undecided=reasons,
         known_findings=[k[0]['what'] for k in known_hits],
+        lost_proof_hints=sum((['%s: %s' % (r.name, h) for h in getattr(r, 'lost_hints', [])] for r in results), []),
     )
     if level != 'proof':
         # exploration-style keys are accepted as fallback; keep both
@@ -210,7 +211,12 @@ def report(prop, tier, seed, spec, results, kani_results, wall):
             except Exception as e:  # replay search is best effort
                 conc = None
                 rec['replay_error'] = repr(e)
-            path = write_replay(prop, unit, rec, dict(concrete=conc, failing_input=(conc or {}).get('input')))
+            lost = sum((getattr(r, 'lost_hints', []) for r in results if r.name == unit), [])
+            extra = dict(concrete=conc, failing_input=(conc or {}).get('input'))
+            if lost:
+                extra['lost_proof_hints'] = lost
+                extra['note2'] = 'the function was restructured: %d proof hints of the unit could not be placed and were dropped; the obligation above passed on the unchanged tree and fails now' % len(lost)
+            path = write_replay(prop, unit, rec, extra)
             print('failed obligation: %s' % oid)
             o = rec.get('site_origin') or rec.get('origin')
             if o and o[1]:
